@@ -39,18 +39,16 @@ Theorem C09_words : forall pe ex opt mw ws,
 Proof. exact rt_words. Qed.
 Print Assumptions C09_words.
 
-(* strings: every list except the single item spelled None / Auto (any case) *)
-Theorem C09_strings : forall pe ex opt mw l,
-  strings_dom l = true -> roundtrip pe ex TyStrings opt mw (VList (map VStr l)).
+(* strings: every list of strings (an item spelled None / Auto is written quoted; repaired in 7891807, formerly F8).
+   Definitions without .type use the same two functions (C09_leaf_untyped). *)
+Theorem C09_strings : forall pe ex opt mw l, roundtrip pe ex TyStrings opt mw (VList (map VStr l)).
 Proof. exact rt_strings. Qed.
 Print Assumptions C09_strings.
 
-(* F8: the list ["None"] is written as the bare word None and reads back as None *)
-Theorem C09_refuted_strings_none : forall pe ex opt mw,
-  exists l ws, ty_as_words TyStrings opt mw (VList (map VStr l)) = Ok ws
-               /\ ty_from_words pe ex TyStrings opt ws = Ok VNone /\ VList (map VStr l) <> VNone.
-Proof. exact strings_none_refuted. Qed.
-Print Assumptions C09_refuted_strings_none.
+Theorem C09_leaf_untyped : forall pe ex h ws a l,
+  get_attr (s_ "type") a = ANone -> pdom pe ex (Def h ws a) (VList (map VStr l)).
+Proof. exact leaf_untyped. Qed.
+Print Assumptions C09_leaf_untyped.
 
 (* qstr: exactly the texts that are the canonical spelling of their own tokens ... *)
 Theorem C09_qstr : forall pe ex opt mw s ws,
@@ -80,10 +78,10 @@ Theorem C09_int_text : forall z, (Z.abs z < B4300)%Z -> Conv.py_int_of_str (str_
 Proof. exact int_of_str_of_Z. Qed.
 Print Assumptions C09_int_text.
 
-(* whatever int.as_words writes for an integer within the bounds (and below the 4300-digit limit, beyond which the
+(* whatever int.as_words writes for an integer (it accepts only integers within the bounds: C09_refuses_scalar_bounds; below the 4300-digit limit, beyond which the
    converter writes hex(z) and reading goes through the eval oracle) reads back as that integer *)
 Theorem C09_int : forall pe ex opt mw lo hi an z ws, (Z.abs z < B4300)%Z ->
-  ty_as_words (TyInt lo hi an) opt mw (VNum (Conv.NInt z)) = Ok ws -> zbounds lo hi z ->
+  ty_as_words (TyInt lo hi an) opt mw (VNum (Conv.NInt z)) = Ok ws ->
   ty_from_words pe ex (TyInt lo hi an) opt ws = Ok (VNum (Conv.NInt z)).
 Proof. exact rt_int. Qed.
 Print Assumptions C09_int.
@@ -165,13 +163,24 @@ Theorem C09_refuses_choice : forall opt mw,
 Proof. exact choice_refusals. Qed.
 Print Assumptions C09_refuses_choice.
 
-(* the scalar int converter never checks value_min / value_max when formatting: int(value_min=0,value_max=3)
-   writes 99, which extraction then refuses *)
-Theorem C09_refuted_scalar_bounds : forall pe ex opt mw,
-  exists lo hi z ws, ~ zbounds lo hi z /\ ty_as_words (TyInt lo hi true) opt mw (VNum (Conv.NInt z)) = Ok ws
-                     /\ exists k t l, ty_from_words pe ex (TyInt lo hi true) opt ws = UErr k t l.
-Proof. exact scalar_bounds_refuted. Qed.
-Print Assumptions C09_refuted_scalar_bounds.
+(* scalar int (repaired in b77ba3d, formerly the scalar-bounds defect): as_words writes a number only if it lies within
+   value_min / value_max, and it does write every in-bounds integer *)
+Theorem C09_refuses_scalar_bounds : forall opt mw lo hi an z ws,
+  ty_as_words (TyInt lo hi an) opt mw (VNum (Conv.NInt z)) = Ok ws -> zbounds lo hi z.
+Proof. exact int_accepts_only_bounds. Qed.
+Print Assumptions C09_refuses_scalar_bounds.
+
+Theorem C09_accepts_in_bounds : forall opt mw lo hi an z, zbounds lo hi z ->
+  ty_as_words (TyInt lo hi an) opt mw (VNum (Conv.NInt z))
+  = Ok [uw (if Conv.too_many_digits z then Conv.py_hex z else str_of_Z z)].
+Proof. exact int_accepts_in_bounds. Qed.
+Print Assumptions C09_accepts_in_bounds.
+
+(* the former witness: int(value_min=0, value_max=3).format(99) is refused *)
+Theorem C09_scalar_bounds_witness_refused : forall opt mw,
+  ty_as_words (TyInt (Some 0%Z) (Some 3%Z) true) opt mw (VNum (Conv.NInt 99)) = UErr (s_ "AboveMax") [] 0.
+Proof. exact scalar_bounds_refused. Qed.
+Print Assumptions C09_scalar_bounds_witness_refused.
 
 (* ------------------------------------------------------------------ scope level, masters without .multiple *)
 (* wf_nm m: active sibling names distinct, without dot, no attribute of scope_extract; nothing .multiple.
